@@ -268,6 +268,19 @@ def check_step(c, model, op, acc, case, feats):
                 acc.violation(f'{op[0]}/block-extraction-shape', case, f'{en.inputs} {en.outputs}', feats)
             elif en.out_tables() != oth.out_tables():
                 acc.violation(f'{op[0]}/block-extraction-function', case, f'{en.to_json()}', feats)
+            else:
+                # the extracted circuit is the caller's: changing it must not affect a later extraction
+                try:
+                    ext.set_outputs([])
+                    ext.order_inputs(list(reversed(ext.inputs)))
+                    if ext.inputs:
+                        ext.emplace_gate('zz_extra', __import__('cirbo.core.circuit.gate', fromlist=['NOT']).NOT, (ext.inputs[0],))
+                except Exception:  # noqa: BLE001
+                    pass
+                ext2 = c.get_block(bname).into_circuit()
+                en2 = refmodel.abstract(ext2)
+                if ext2 is ext or en2.inputs != en.inputs or en2.outputs != en.outputs or en2.gates != en.gates:
+                    acc.violation(f'{op[0]}/block-extraction-not-fresh', case, f'second extraction {en2.to_json()}', feats)
         except Exception as e:  # noqa: BLE001
             acc.violation(f'{op[0]}/block-extraction-raises-{type(e).__name__}', case, repr(e), feats)
     acc.outcome('shape', (op[0], len(want.inputs), len(want.outputs), len(want.gates)))
